@@ -22,7 +22,7 @@ def run(job):
 
 def main():
     ids = [a for a in sys.argv[1:] if not a.startswith('-')]
-    dirs = [d for d in sorted(glob.glob('/verif/refactored/*')) if not ids or os.path.basename(d) in ids]
+    dirs = [d for d in sorted(glob.glob('/verif/refactored/*')) if not ids or os.path.basename(d) in ids or any(os.path.basename(d).startswith(a + '-') for a in ids)]
     temps = {os.path.basename(d): prep(d) for d in dirs}
     jobs = [(i, t, p) for i, t in temps.items() for p in PROPS]
     res = {}
